@@ -239,8 +239,10 @@ func runC16(env *core.Env, res *core.Result) {
 	for i := env.From; i < env.To; i++ {
 		res.Cases++
 		r := env.Rand(i)
-		if e == nil || (i-env.From)%50 == 0 {
-			e = newC16Env(r) // fresh configuration and JobConfig fixtures every 50 requests
+		if e == nil || i%50 == 0 {
+			// fresh configuration and JobConfig fixtures every 50 requests; a function of the block, not of
+			// where a shard starts, so that a single case replays under the environment it ran in
+			e = newC16Env(env.Rand(1<<30 + i/50))
 		}
 		if r.Intn(4) == 0 {
 			c16JobConfigCase(i, r, e, res)
